@@ -24,7 +24,8 @@ RULE = ('sequential: histories of push/pull/peek on both sides over prefixes {No
 DISTINCT = ('cells', 'schedules')
 REQUIRED = ('sequential_calls', 'pulls_of_expired_heads', 'file_backed_items', 'ordinary_keys_interleaved',
             'schedules_checked', 'free_runs', 'items_delivered_concurrently', 'prefix_extension_cases',
-            'timed_schedules_checked', 'timed_items_delivered', 'timed_items_expired_undelivered')
+            'timed_schedules_checked', 'timed_items_delivered', 'timed_items_expired_undelivered', 'queue_blocks_aborted',
+            'queue_blocks_committed')
 ASSUMPTIONS = ('a queue key is `prefix-<15 digits>` (or an int in (0, 10**15) for prefix None); every other key is an '
                'ordinary key outside the queue key range',)
 
@@ -133,6 +134,41 @@ def sequential(dc, sc, res, rng, label):
             r = rng.random()
             p = gen.pick(rng, prefixes)
             side = gen.pick(rng, ['back', 'front'])
+            if rng.random() < 0.06:
+                # a transact() block of queue operations that commits, or is left by an exception: then every queue is
+                # as it was (also the items whose values live in files)
+                import copy
+                abort = rng.random() < 0.6
+                saved = copy.deepcopy(mdl.q)
+                inside = []
+                try:
+                    with cache.transact():
+                        for _ in range(rng.randrange(1, 4)):
+                            bp, bside = gen.pick(rng, prefixes), gen.pick(rng, ['back', 'front'])
+                            if rng.random() < 0.5:
+                                bv = val()
+                                clock.begin()
+                                key = cache.push(bv, prefix=bp, side=bside)
+                                exp = mdl.push(bv, bp, bside, None, None)
+                                inside.append(('push', bp, bside, key))
+                                if not same(key, exp):
+                                    return fail('push inside a block returned key %r, expected %r' % (key, exp))
+                            else:
+                                clock.begin()
+                                got = cache.pull(prefix=bp, side=bside)
+                                it, _ = mdl.head(bp, bside, clock.reads[0] if clock.reads else clock.now_peek(), True)
+                                exp = (None, None) if it is None else (it['key'], it['value'])
+                                inside.append(('pull', bp, bside, got))
+                                if not same(got, exp):
+                                    return fail('pull inside a block returned %r, the queue model says %r' % (got, exp))
+                        if abort:
+                            raise KeyError('abort the block')
+                except KeyError:
+                    mdl.q = saved
+                hist.append(('block-aborted' if abort else 'block-committed', inside))
+                res.count('queue_blocks_aborted' if abort else 'queue_blocks_committed')
+                res.count('evaluations')
+                continue
             if r < 0.34:
                 v = val()
                 ttl = gen.pick(rng, [None, None, None, gen.ttl_exact(1.5), gen.ttl_exact(30.5)])
